@@ -260,10 +260,14 @@ def run_seq(prop, tier, seed, model=True):
             n2 += n
         extra_cov['interleavings_checked_for_rejected_requests_without_effect'] = n2
     if prop == 'C09':
-        v2, k2, n2 = concur_supplement('C09', 'C09', tier, seed)
-        violations.extend(v2)
-        known.extend(k2)
-        extra_cov['interleavings_of_hierarchy_changes'] = n2
+        n3 = 0
+        # racing moves / creations / deletions, and removals racing with new children
+        for ck in ('C09', 'C08'):
+            v2, k2, n2 = concur_supplement('C09', ck, tier, seed)
+            violations.extend(v2)
+            known.extend(k2)
+            n3 += n2
+        extra_cov['interleavings_of_hierarchy_changes'] = n3
     if prop == 'C08':
         # removals racing with requests that start to use what is removed
         v2, k2, n2 = concur_supplement('C08', 'C08', tier, seed)
@@ -824,7 +828,7 @@ def run_surface(prop, tier, seed, model=True):
                 violations.append((bad, why, sig))
     if prop == 'C14':
         rule = ('every (route, method) of the routing table plus unknown paths and undeclared methods x all 40 microversions, "latest", no header and out-of-range versions; '
-                'every one of the 65 versioned features probed at all 40 microversions; distinct non-trivial = all probes (each is a distinct table cell)')
+                'every one of the 71 versioned features probed at all 40 microversions; distinct non-trivial = all probes (each is a distinct table cell)')
     else:
         rule = ('every (route, method) x 7 caller classes under the default policy, and for every documented rule the overrides "@" (everyone) and "!" (nobody) on the '
                 'operations of that rule plus sampled other operations (thorough: all operations); each probe from a restored snapshot with a table dump afterwards; '
